@@ -11,6 +11,7 @@ quantify over ALL schedules, cover sequences and concurrent groups alike.
 -/
 import Dtn7.Model.IdKeeper
 import Dtn7.Lemmas.IdKeeper
+import Dtn7.Lemmas.IdKeeperSeq
 import Dtn7.Gen.C14
 
 namespace Dtn7.Props.C14
@@ -266,6 +267,23 @@ theorem restart_witness :
     ((idOf subs (second Cfg.code) 1).seq = 1 ∧ (second Cfg.code).store.length = 2 ∧
       FiledOnce [0, 1] (obsOf (second Cfg.code))) := by decide +kernel
 
+/-- **Submissions one after the other are filed under fresh ids — from ANY quiet state**
+(`sequential_submissions_filed`, no retention hypothesis): `n0` is any state in which nobody holds the
+IdKeeper's mutex — any store, any counter table (empty after a restart, or with entries `clean` dropped) —
+and `is` are submissions that have not started yet, with whatever sources and creation times (all equal,
+older than a day, the epoch …). When they run one after the other, the mutex is free again, nothing that
+was stored is lost, the store gained exactly one record per submission, no two records share a key, and
+each submission's bundle is in the store under an id that the store did not hold before. -/
+theorem sequential_submissions_filed (subs : Nat → Sub) (n0 : Node) (is : List Nat)
+    (hq : n0.holder = none) (hnd : is.Nodup) (hnew : ∀ i ∈ is, (n0.th i).pc = 0) :
+    let n := run Cfg.code subs n0 (Lemmas.seqOf is)
+    n.holder = none ∧ n.store.length = n0.store.length + is.length ∧
+    (∀ e ∈ n0.store, e ∈ n.store) ∧
+    ((n0.store.map (·.1)).Nodup → (n.store.map (·.1)).Nodup) ∧
+    (∀ i ∈ is, ∃ q, (Lemmas.idWith subs i q, (⟨Lemmas.idWith subs i q, (subs i).tag⟩ : Bundle)) ∈ n.store ∧
+      knows n0.store (Lemmas.idWith subs i q) = false) :=
+  Lemmas.run_seq subs is n0 hq hnd hnew
+
 /-- **Known finding (on the wire only)**: the number of a bundle that was delivered and deleted before a
 restart is free in the store and is handed out again after the restart — this model's store never forgets
 a key, the node model of C05 exhibits it: `Dtn7.Props.C05.wire_id_reused_after_restart_witness`; class
@@ -353,5 +371,14 @@ example : stampedPc Cfg.code = 4 ∧ (prog Cfg.code).idxOf .push + 1 = 7 := by d
 example :
     let n := run Cfg.code demoSubs (Node.init demoSubs Keeper.empty) [.step 0, .step 1, .step 0]
     InUpdate n 0 ∧ ¬ InUpdate n 1 := by decide +kernel
+
+/-- `sequential_submissions_filed` is not vacuous: a store with one old bundle (#0 of a clock-less source),
+an empty IdKeeper (restart), three further submissions of the same source — numbers 1, 2, 3. -/
+example :
+    let subs : Nat → Sub := fun i => ⟨i, ⟨"n", 0⟩, 0, 800000000000, []⟩
+    let n0 : Node := { Node.init subs Keeper.empty with store := [(⟨"n", 0, 0⟩, ⟨⟨"n", 0, 0⟩, 99⟩)] }
+    let n := run Cfg.code subs n0 (Lemmas.seqOf [1, 2, 3])
+    n0.holder = none ∧ (n.store.map (·.1.seq)) = [3, 2, 1, 0] ∧ (n.store.map (·.2.tag)) = [3, 2, 1, 99] := by
+  decide +kernel
 
 end Dtn7.Props.C14
